@@ -29,15 +29,15 @@ def evStr : CbEv → String
   | .unreg h _ _ => s!"unreg:{h}"
 
 def callStr : Call → String
-  | .onNew old new => s!"onNew:{cfgStr old}:{cfgStr new}"
+  | .onNew old new _ => s!"onNew:{cfgStr old}:{cfgStr new}"
   | .onErr k old new => s!"onErr:{errStr k}:{cfgStr old}:{ocfgStr new}"
-  | .user h old new _ => s!"user:{h}:{cfgStr old}:{cfgStr new}"
+  | .user h old new _ _ => s!"user:{h}:{cfgStr old}:{cfgStr new}"
 
 def resStr : Res → String
   | .okNil => "nil" | .errStack => "stackErr" | .errVerify => "verifyErr" | .ctxErr => "ctxErr"
   | .version v => s!"ver:{v.serial}:{cfgStr v.cfg}"
   | .noEvent => "noev" | .event c => s!"ev:{cfgStr c}"
-  | .regOk => "regOk" | .regFail => "regFail" | .unregTrue => "unregTrue" | .unregFalse => "unregFalse"
+  | .regOk _ => "regOk" | .regFail => "regFail" | .unregTrue => "unregTrue" | .unregFalse => "unregFalse"
   | .enableOk v => s!"enOk:{v.serial}:{cfgStr v.cfg}" | .enableErr => "enErr"
 
 def errKStr : ErrK → String
